@@ -34,6 +34,9 @@ class Kind(object):
     def random(self, rng):
         raise NotImplementedError
 
+    def small(self, v, scale):
+        return True
+
 
 def mval(model, t):
     return model.eval(t, model_completion=True)
@@ -56,6 +59,9 @@ class IntK(Kind):
 
     def from_model(self, model, v):
         return mval(model, v).as_long()
+
+    def small(self, v, scale):
+        return z3.And(v <= 50 * scale, v >= -50 * scale)
 
     def random(self, rng):
         if self.rnd:
@@ -123,6 +129,9 @@ class BytesArrK(Kind):
         j = z3.Int("bq!" + str(v.arr))
         cs.append(z3.ForAll([j], z3.And(z3.Select(v.arr, j) >= 0, z3.Select(v.arr, j) < 256)))
         return z3.And(cs)
+
+    def small(self, v, scale):
+        return to_z3_int(v.length) <= 8 * scale
 
     def from_model(self, model, v):
         n = mval(model, to_z3_int(v.length)).as_long()
@@ -360,6 +369,16 @@ def _discharge_one(i):
     try:
         r = solve.discharge(ob.hyps, ob.goal, timeout)
         model_vals = None
+        if r.status == "sat" and r.model is not None and syms:
+            # look for a small counter-model first (replayable sizes)
+            for scale in (1, 8, 64):
+                extra = [kind.small(v, scale) for k, (kind, v) in syms.items()]
+                extra = [e for e in extra if e is not True]
+                s2 = solve.negation_query(list(ob.hyps) + extra, ob.goal)
+                s2.set("timeout", 15000)
+                if s2.check() == z3.sat:
+                    r.model = s2.model()
+                    break
         if r.status == "sat" and r.model is not None:
             model_vals = {}
             for k, (kind, v) in syms.items():
